@@ -11,7 +11,7 @@ LEVEL = "exploration"
 RULE = ("turn-based multi-thread libovni programs (1-4 threads in one process, or split over two processes of one loom that run one after the other into the same trace directory) through rtdrv: ovni_mark_type "
         "(stack/single, titles), ovni_mark_label, then ovni_mark_set/push/pop interleaved with OHp/OHr, cool/warm "
         "and OAs; the types and labels are declared by different threads that agree, overlap, or (one case in "
-        "three) carry exactly one conflict (title, channel type or label) or one misuse (pop mismatch, zero value, "
+        "three) carry exactly one conflict (title, channel type or label) or one misuse (pop mismatch, zero value - through the API or as a plain event in any thread state, also hidden while the thread is paused -, "
         "undefined type, set on a stack type, push/pop on a single type, type out of range, redefinition, label "
         "of an undefined type or value <= 0).  Oracle: a conflict or misuse is refused either by libovni (abort "
         "with a diagnostic) or by ovniemu (exit 1); otherwise stream.json holds exactly what each thread declared, "
@@ -62,7 +62,7 @@ def programs(draw):
             if not any(v in d.get(mt, []) for d in decl):
                 who = [i for i, d in enumerate(decl) if mt in d]
                 decl[draw(st.sampled_from(who))][mt].append(v)
-    bad = draw(st.sampled_from([None, None, "title", "kind", "label", "pop-mismatch", "zero", "undefined", "set-on-stack",
+    bad = draw(st.sampled_from([None, None, "title", "kind", "label", "pop-mismatch", "zero", "zero-raw", "zero-raw", "undefined", "set-on-stack",
                                 "push-on-single", "pop-on-single", "range", "redefine", "label-undefined", "label-value"]))
     # system + walk
     streams = []
@@ -112,7 +112,7 @@ def programs(draw):
     if bad == "label-value":
         ops.append((0, ["mlabel", used[0], draw(st.sampled_from([0, -1])), "lab"]))
     n = draw(st.integers(3, 40))
-    misuse_at = draw(st.integers(0, n - 1)) if bad in ("pop-mismatch", "zero", "undefined", "set-on-stack", "push-on-single", "pop-on-single") else -1
+    misuse_at = draw(st.integers(0, n - 1)) if bad in ("pop-mismatch", "zero", "zero-raw", "undefined", "set-on-stack", "push-on-single", "pop-on-single") else -1
     hidden = False
     stop = False
 
@@ -148,6 +148,16 @@ def programs(draw):
                 if bad == "zero":
                     m = draw(st.sampled_from(mts))
                     op = ["mset" if types[m]["kind"] == "single" else "mpush", m, 0]
+                elif bad == "zero-raw":
+                    # the zero reaches the trace as a plain event (libovni itself refuses it), in whatever
+                    # state the thread is; when the thread is not active the value is replaced again before
+                    # it could become visible: the emulator still has to refuse the event
+                    m = draw(st.sampled_from(mts))
+                    single = types[m]["kind"] == "single"
+                    op = ["ev", "OM=" if single else "OM[", T.P("qi", 0, m)]
+                    if th.state not in R.ACTIVE:
+                        ops.append((t, op))
+                        op = ["ev", "OM=", T.P("qi", 5, m)] if single else ["ev", "OM]", T.P("qi", 0, m)]
                 elif bad == "undefined":
                     free = [x for x in range(100) if x not in types]
                     # never-defined types inside and outside the documented 0..99 range
